@@ -15,6 +15,7 @@ literal byte addresses, MSL struct definitions through the C++ layout function,
 GLSL blocks through std430/std140."""
 import hashlib
 import json
+import os
 
 import gen
 import layoutgen as L
@@ -25,7 +26,7 @@ import vcheck
 LEVEL = "proof"
 
 MODEL_FILES = ["Layout/Spec.v", "Layout/Constraints.v", "Layout/Naga.v", "Layout/Hlsl.v", "Layout/Glsl.v",
-               "Layout/Msl.v", "Layout/Arith.v", "Layout/SpecProofs.v", "Layout/NagaProofs.v",
+               "Layout/Msl.v", "Layout/Spv.v", "Layout/Arith.v", "Layout/SpecProofs.v", "Layout/NagaProofs.v",
                "Layout/HlslProofs.v", "Layout/GlslProofs.v", "Layout/MslProofs.v", "Layout/Codec.v"]
 
 # fixed probes: the inputs of the known findings and of the refutation witnesses
@@ -41,6 +42,9 @@ PROBES = [
                       [None, None, ["arr", ["m", 4, 2, "f32"], 2]], [None, None, ["rarr", ["v", 2, "u32"]]]]],
      ["st", [[None, None, ["v", 4, "f32"]], [None, None, ["m", 2, 2, "f32"]], [None, None, ["arr", ["v", 4, "f32"], 2]],
              [None, None, ["s", "f32"]]]]),
+    ("hlsl-f16-matcx2", ["st", [[None, None, ["s", "u32"]], [None, None, ["st", [[None, None, ["s", "f32"]], [None, None, ["m", 2, 2, "f16"]]]]]]], None),
+    ("hlsl-struct24", ["s", "u32"],
+     ["st", [[None, None, ["st", [[None, None, ["m", 3, 2, "f32"]]]]], [None, None, ["v", 4, "f32"]]]]),
     ("uniform-natural", ["s", "u32"],
      ["st", [[None, None, ["v", 4, "f32"]], [None, None, ["m", 4, 4, "f32"]], [None, None, ["st", [[None, None, ["v", 3, "f32"]], [None, None, ["s", "f32"]]]]],
              [None, None, ["arr", ["m", 3, 3, "f32"], 2]], [None, None, ["v", 2, "f32"]]]]),
@@ -131,11 +135,13 @@ def run(ctx):
         "extraction: ExtrOcamlBasic only; generic JSON driver ocaml/common/driver.ml; OCaml 4.13.1",
         "transcriptions of external specifications: WGSL 'Memory Layout' (Layout/Spec.v, Constraints.v), OpenGL 4.6 core 7.6.2.2 std140/std430 (Layout/Glsl.v), Metal Shading Language size/alignment tables + C++ struct layout (Layout/Msl.v); no reference tool in the sandbox to cross-check them",
         "readers (lib/layoutgen.py): SPIR-V word reader, HLSL Store/Load address reader, MSL struct parser, GLSL block parser, Go reflection dump of ir.Module.Types (harness/cmd/layoutdrive)",
-        "modelled: wgsl/internal/lower/lower.go lowerStruct, getAlignAttribute/getSizeAttribute, typeAlignmentAndSize, array stride; ir/type_size.go; hlsl storage.go computeSubAccess; msl types.go writeStructDefinition/shouldPackMember/typeSize. NOT modelled (tie C only): spirv decoration emission, hlsl cbuffer struct padding, glsl block emission",
+        "modelled and proved about: wgsl/internal/lower/lower.go lowerStruct, getAlignAttribute/getSizeAttribute, typeAlignmentAndSize, array stride; ir/type_size.go; hlsl storage.go computeSubAccess; msl types.go writeStructDefinition/shouldPackMember/typeSize. NOT modelled (correspondence only): spirv decoration emission, hlsl whole-value load/store decomposition, hlsl cbuffer struct padding, glsl block emission",
+        "transcription of HLSL 'Packing Rules for Constant Variables' (Layout/Hlsl.v)",
     ]
     ctx.assumptions = [
         "runtime-sized arrays: SizeOf is compared for one element (the static part of the layout)",
-        "HLSL uniform (cbuffer) members are accessed by name; their placement is compared only through the emitted padding members, not by theorem",
+        "HLSL uniform (cbuffer) members are accessed by name: the emitted struct definitions are pushed through a transcription of HLSL's documented cbuffer packing rules (Layout/Hlsl.v hsize/hoffsets, extracted) and compared with the IR layout; there is no theorem about the struct emitter and no HLSL compiler in the sandbox to confirm the packing rules",
+        "GLSL is compared at version 4.30 (storage buffers available); the 3.30 default is probed on the fixed inputs only",
         "workgroup variables have no host-visible layout; they are generated only to check that layout decorations of shared types survive",
     ]
     broken = None
@@ -147,20 +153,37 @@ def run(ctx):
         ctx.violation("extracted layout model cannot be built: %s" % str(e)[-1500:], found_input=False,
                       broken=broken or "extraction of Layout/Codec.v")
         return
-    n = ctx.scale(260, 6000)
-    progs, dropped = gen_programs(ctx, exe, n)
+    n = ctx.scale(200, 4000)
+    replay = getattr(ctx, "replay", None)
+    if replay and os.path.exists(os.path.join(replay, "tree.json")):
+        with open(os.path.join(replay, "tree.json")) as f:
+            tj = json.load(f)
+
+        def unwire(t):
+            if t is None:
+                return None
+            if t[0] == "arr":
+                return ["arr", unwire(t[1]), t[2]]
+            if t[0] == "rarr":
+                return ["rarr", unwire(t[1])]
+            if t[0] == "st":
+                return ["st", [[(a + [0]) if a else None, (z + [0]) if z else None, unwire(mt)] for a, z, mt in t[1]]]
+            return t
+        progs, dropped = [("replay", unwire(tj["storage"]), unwire(tj.get("uniform")))], 0
+    else:
+        progs, dropped = gen_programs(ctx, exe, n)
     rng = ctx.rng.fork("render")
     jobs = []
     meta = {}
     for i, (name, st, ut) in enumerate(progs):
         src, info = L.program(st, ut, rng.fork(name), workgroup=(i % 3 == 0))
-        jobs.append({"id": i, "src": src, "opts": {"glsl": [430]}})
+        jobs.append({"id": i, "src": src, "opts": {"glsl": [430, 330] if i < len(PROBES) else [430]}})
         meta[i] = (name, st, ut, src, info)
     # model answers
     mvals = []
     for i in range(len(progs)):
         name, st, ut, src, info = meta[i]
-        mvals.append((st, [p for _, p, _ in info["paths"]]))
+        mvals.append((st, [p for _, p, _ in info["paths"]] + (info["copy"] or [])))
     mres = model_jobs(exe, mvals)
     ures = {}
     uidx = [i for i in range(len(progs)) if meta[i][2] is not None]
@@ -187,7 +210,8 @@ def run(ctx):
             ctx.violation("valid host-shareable declaration rejected at %s: %s" % (r.get("stage"), r["err"][:300]),
                           files=files, key="rejected:" + L.re.sub(r"\d+", "N", r["err"])[:80])
             continue
-        shapes.add(tree_hash(st))
+        if L.count_nodes(st) >= 3:
+            shapes.add(tree_hash(st))
         stats["max_depth"] = max(stats["max_depth"], L.depth_of(st))
         stats["max_nodes"] = max(stats["max_nodes"], L.count_nodes(st))
         txt = json.dumps(L.wire(st))
@@ -197,7 +221,8 @@ def run(ctx):
         stats["with_size"] += "@size" in src
         check_var(ctx, Q, stats, name, "sb", 0, st, mres[i], r, info, files, storage=True)
         if ut is not None:
-            shapes.add(tree_hash(ut))
+            if L.count_nodes(ut) >= 3:
+                shapes.add(tree_hash(ut))
             check_var(ctx, Q, stats, name, "ub", 1, ut, ures[i], r, info, files, storage=False)
         if len(ctx.cov["samples"]) < 5 and i >= len(PROBES):
             ctx.sample({"program": name, "wgsl_head": src[:300], "spec_layout": mres[i]["spec"]})
@@ -211,13 +236,18 @@ def run(ctx):
     ctx.cov["traces_validated_against_impl"] = stats["ir_compared"]
     ctx.cov["rule"] = ("one evaluation = one (variable, observable) comparison: IR layout tree, SPIR-V decoration tree, "
                        "one HLSL literal address, MSL definition through the C++ layout, GLSL block through std430/std140; "
-                       "distinct = distinct type trees (hash of the tree); non-trivial: every tree has at least one member/element "
-                       "whose placement depends on an alignment rule")
+                       "distinct_nontrivial = distinct type trees (hash of the tree) with at least three nodes, i.e. at least "
+                       "two members/elements whose relative placement is decided by the layout rules")
     if broken and not ctx.violations:
         ctx.violation(broken + "\n(no type tree with a wrong layout was found by the correspondence search)",
                       found_input=False, broken=broken)
     elif broken:
         ctx.cov["broken_tie"] = broken
+
+
+def is_subsequence(a, b):
+    it = iter(b)
+    return all(x in it for x in a)
 
 
 def hyp_ok(m):
@@ -317,6 +347,22 @@ def check_var(ctx, Q, stats, name, var, binding, tree, m, r, info, files, storag
                               files=dict(files, **{"out.hlsl": r["hlsl"]}), key="hlsl:" + th,
                               broken="HLSL byte-address arithmetic (storage.go computeSubAccess / writeStorageStore)")
                 break
+        if info.get("copy") and not any(v[3] == "hlsl:" + th for v in ctx.violations):
+            exp = m["hlsl_paths"][len(info["paths"]):]
+            loads, stores = L.hlsl_copy_addresses(r["hlsl"], "sb")
+            stats["hlsl_copy_sequences_compared"] = stats.get("hlsl_copy_sequences_compared", 0) + 1
+            stats["hlsl_addresses_compared"] += 2 * len(exp)
+            f16cx2 = '["m", 2, 2, "f16"]' in json.dumps(tree) or '["m", 3, 2, "f16"]' in json.dumps(tree) \
+                or '["m", 4, 2, "f16"]' in json.dumps(tree)
+            if loads == exp and stores != exp and f16cx2 and stores is not None and is_subsequence(stores, exp):
+                ctx.violation("HLSL store of a structure value drops its matCx2<f16> members: stores at %s, components at %s (%s)"
+                              % (stores, exp, name), files=dict(files, **{"out.hlsl": r["hlsl"]}),
+                              key="hlsl-copy:f16-matCx2-struct-member-not-stored")
+            elif loads != exp or stores != exp:
+                ctx.violation("HLSL whole-value load/store of an aggregate of sb uses addresses\n loads  %s\n stores %s\n"
+                              "the IR layout puts its components at\n        %s (%s)" % (loads, stores, exp, name),
+                              files=dict(files, **{"out.hlsl": r["hlsl"]}), key="hlsl-copy:" + th,
+                              broken="HLSL writeStorageLoad / writeStorageStore offset accumulation")
     elif "hlsl" in r and not storage:
         try:
             hh = L.Hlsl(r["hlsl"])
@@ -345,6 +391,19 @@ def check_var(ctx, Q, stats, name, var, binding, tree, m, r, info, files, storag
     else:
         ctx.violation("MSL backend failed on a host-shareable type (%s): %s" % (name, r.get("msl_err")), files=files,
                       key="msl-err:" + L.re.sub(r"\d+", "N", str(r.get("msl_err")))[:80])
+    # ---------------- GLSL below 4.30 (probes only): storage buffers
+    g330 = (r.get("glsl") or {}).get("330")
+    if isinstance(g330, str) and storage:
+        try:
+            b = L.Glsl(g330).block_for(0, binding)
+            stats["glsl330_storage_blocks"] = stats.get("glsl330_storage_blocks", 0) + 1
+            if b is not None and (b[0], b[1]) != ("std430", "buffer"):
+                ctx.violation("GLSL 3.30 (the default target): read_write storage buffer %s is declared `layout(%s) %s` - an std140 "
+                              "uniform block: not writable, and arrays/structures are laid out by std140 instead of the WGSL rules (%s)"
+                              % (var, b[0], b[1], name), files=dict(files, **{"out330.glsl": g330}),
+                              key="glsl330:storage-buffer-as-std140-uniform-block")
+        except Exception:
+            pass
     # ---------------- GLSL
     g = (r.get("glsl") or {}).get("430")
     if isinstance(g, str):
@@ -464,18 +523,33 @@ def finish_hlslcb(ctx, exe, queue, stats):
     if not queue:
         return
     res = vcheck.run_model(exe, [{"op": "hlslcb", "h": q[5][0]} for q in queue])
-    for (name, var, th, tree, m, cb, want, files, text), hr in zip(queue, res):
+    defs = vcheck.run_model(exe, [{"op": "hlsldef", "t": L.wire(q[3])} for q in queue])
+    for (name, var, th, tree, m, cb, want, files, text), hr, md in zip(queue, res, defs):
         stats["hlsl_cbuffers_compared"] += 1
         files = dict(files, **{"out.hlsl": text})
-        if not hr.get("ok"):
-            ctx.violation("HLSL cbuffer member of %s not understood by the packing model (%s): %s" % (var, name, hr),
+        if not hr.get("ok") or not md.get("ok"):
+            ctx.violation("HLSL cbuffer member of %s not understood by the packing model (%s): %s %s" % (var, name, hr, md),
                           files=files, key="hlslcb-read:" + name)
             continue
-        got = L.erase(L.hl_to_lay(hr["lay"], cb[1]), True, False)
-        exp = L.erase(want, True, False)
+        # struct sizes are not compared (HLSL rounds them to 16; only placements matter)
+        if json.dumps(cb[0]) == json.dumps(md["def"]):
+            stats["hlsl_cbuffer_defs_equal_emitter_model"] = stats.get("hlsl_cbuffer_defs_equal_emitter_model", 0) + 1
+        got = L.erase(L.hl_to_lay(hr["lay"], cb[1]), True, True)
+        exp = L.erase(want, True, True)
         bad = L.hl_continuations_ok(hr["lay"])
-        if got != exp or bad:
-            ctx.violation("HLSL cbuffer packing of the struct emitted for %s differs from the IR layout (%s): %s %s\n"
-                          "HLSL packing %s\nIR layout    %s" % (var, name, L.first_diff(got, exp), bad or "", got, exp),
-                          files=files, key="hlslcb:" + th,
+        if got == exp and not bad:
+            continue
+        d = L.first_diff(got, exp)
+        what = ("HLSL cbuffer packing of the struct emitted for %s differs from the IR layout (%s): %s %s\n"
+                "HLSL packing %s\nIR layout    %s" % (var, name, d, bad or "", got, exp))
+        as_modelled = json.dumps(cb[0]) == json.dumps(md["def"])
+        if as_modelled and L.has_struct_span_not_16(want):
+            # the emitter behaves as transliterated (Layout/Hlsl.v hlsl_def) and the tree contains what the
+            # model mis-pads: a nested structure whose Span is not a multiple of 16
+            ctx.violation(what, files=files, key="hlslcb:pad-after-struct-with-span-not-multiple-of-16")
+        elif as_modelled:
+            ctx.violation(what + "\n(the model of the struct emitter predicts this deviation)", files=files,
+                          key="hlslcb-model-predicted:" + th)
+        else:
+            ctx.violation(what + "\nemitted definition  %s\nmodel of the emitter %s" % (cb[0], md["def"]), files=files, key="hlslcb:" + th,
                           broken="HLSL cbuffer struct emission (types.go writeStructDefinition padding / matCx2 decomposition)")
